@@ -188,6 +188,28 @@ pub fn nonzero_chars(text: &str) -> usize {
     n
 }
 
+/// Clean, and additionally every ESC *begins* a sequence: no ESC hides
+/// inside the parameter bytes of a CSI or the payload of an OSC (the ESC of
+/// the terminating `ESC \` of an OSC is part of that sequence's end).
+pub fn strictly_clean(text: &str) -> bool {
+    if !text.contains(ESC) {
+        return true;
+    }
+    let sc = scan(text);
+    if !sc.clean() {
+        return false;
+    }
+    let b = text.as_bytes();
+    sc.spans.iter().all(|sp| {
+        let inner_end = if sp.kind == SeqKind::Osc && b[sp.end - 1] == b'\\' {
+            sp.end - 2
+        } else {
+            sp.end
+        };
+        !b[sp.start + 1..inner_end].contains(&0x1b)
+    })
+}
+
 pub fn is_clean(text: &str) -> bool {
     !text.contains(ESC) || scan(text).clean()
 }
